@@ -81,6 +81,12 @@ func genC04(e *emitter, tier string) {
 			}
 		}
 	}
+	// full-rank stacks whose batch axes need no stretching (the operand handed to the kernel IS the caller's)
+	for _, pr := range [][2][]int{{{2, 3, 2, 4}, {2, 3, 4, 2}}, {{2, 3, 2, 4}, {4, 5}}, {{2, 2, 3}, {2, 3, 2}}, {{3, 2, 2, 2}, {1, 2, 2, 3}}, {{2, 3, 2, 4}, {3, 4, 2}}, {{2, 1, 2, 2, 3}, {2, 2, 2, 3, 2}}} {
+		k++
+		e.emit(opCase("matmul-full-rank", "MatMul", nil, []*TJ{smallT("f32", pr[0], k), smallT("f32", pr[1], k+1)}, nil))
+		e.emit(opCase("matmul-full-rank", "MatMul", nil, []*TJ{smallT("f64", pr[0], k+2), smallT("f64", pr[1], k+3)}, nil))
+	}
 	// batch extents that are both > 1 and differ (not broadcastable), either operand the larger
 	for _, pr := range [][2][]int{{{3}, {2}}, {{2}, {3}}, {{3, 1}, {2, 1}}, {{2, 3}, {2, 2}}, {{1, 3}, {2, 2}}, {{3}, {1, 2}}, {{4, 2}, {2, 2}}} {
 		a := smallT("f32", append(append([]int{}, pr[0]...), 2, 3), k)
